@@ -4,3 +4,7 @@ package object
 
 // Verification hooks are compiled in with the build tag "verif" only
 // (see verif_on.go).
+
+const verifOn = false
+
+func verifSync(ev, name string) {}
